@@ -198,6 +198,10 @@ class Davenport:
         """
         _assert_numerical_iterable(acc, 'Gravitational acceleration vector')
         _assert_numerical_iterable(mag, 'Geomagnetic field vector')
+        # Unit observations: the weights w are the relative weights, whatever the units of the samples
+        a_norm, m_norm = np.linalg.norm(acc), np.linalg.norm(mag)
+        acc = np.copy(acc)/a_norm if a_norm > 0 else acc
+        mag = np.copy(mag)/m_norm if m_norm > 0 else mag
         B = self.w[0]*np.outer(acc, self.g_q) + self.w[1]*np.outer(mag, self.m_q)   # Attitude profile matrix
         sigma = B.trace()
         z = np.array([B[1, 2]-B[2, 1], B[2, 0]-B[0, 2], B[0, 1]-B[1, 0]])
